@@ -36,10 +36,17 @@ RootChecks(st, st2, p, err, relay) ==
     \cup NameIf((p.h >= 1 /\ p.h \in DOMAIN L /\ p.root # L[p.h]) => ~relay, "beyond:MismatchNotRelayed")
     \cup NameIf(M!Acceptable(B, L, st.loc, p) => ~err, "beyond:AcceptedGood")
 
+\* the witness is a complete, correct multisignature - of a set designated EARLIER than the one in force (the service keeps
+\* the validator list of the moment the incomplete root was made)
+StaleSet(p) ==
+    /\ p.nwit = 1 /\ p.wit.m = M!MOf(Len(p.wit.keys)) /\ p.wit.nsig = p.wit.m /\ Len(p.wit.matched) = p.wit.m
+    /\ \E i \in DOMAIN B : B[i].keys = p.wit.keys /\ B[i].blk < p.h
+
 EmitChecks(n, p) ==
     IF p.kind = "root"
     THEN NameIf(M!EmitIsLocal(L, p), "J:EmitIsLocal")
-         \cup NameIf(M!EmitIsLocal(L, p) => M!EmitSound(B, L, p), "beyond:EmitWitness")
+         \cup (IF M!EmitIsLocal(L, p) /\ ~M!EmitSound(B, L, p)
+               THEN (IF StaleSet(p) THEN {"beyond:EmitStaleSet"} ELSE {"beyond:EmitWitness"}) ELSE {})
     ELSE IF p.kind = "vote"
     THEN NameIf(M!VoteIsLocal(L, p, K[n]), "J:VoteIsLocal")
          \cup NameIf(M!VoteDesignated(B, p), "beyond:VoteDesignated")
